@@ -332,6 +332,11 @@ class Conts:
             return I(r)
         if recv.kind == 'cvs' and idx.kind == 'int':
             return recv.at(st, idx.t)
+        if recv.kind == 'cvs' and idx.kind == 'slice' and idx.f.get('hi') is None and idx.f.get('step') is None and idx.f.get('lo') is not None \
+                and idx.f['lo'].kind == 'int' and z3.is_int_value(simplify(idx.f['lo'].t)) and simplify(idx.f['lo'].t).as_long() >= 0:
+            k = simplify(idx.f['lo'].t).as_long()
+            ex.use('axiom:xs[k:] of a tuple holds the items from position k on (none when len(xs) <= k)')
+            return SV('cvs', None, n=If(recv.n >= k, recv.n - k, 0), at=lambda st2, j, recv=recv, k=k: recv.at(st2, zi(j) + k))
         return NotImplemented
 
     def iterate(self, ex, st, it):
@@ -468,6 +473,9 @@ class Lift:
     def attr(self, ex, st, e, recv, name):
         if recv.kind == 'obj' and name == 'types':
             return SV('typeset')
+        if recv.kind == 'obj' and name == 'first':
+            ex.use('uninterpreted:self.first (the name of the first parameter of the lifted function, a property over getargs) is an opaque value')
+            return CV(Const('FIRST_PARAMETER', Val))
         return NotImplemented
 
     def pre_call(self, ex, st, e):
@@ -551,6 +559,9 @@ class Lift:
     def compare(self, ex, st, e, op, a, b):
         if op in ('In', 'NotIn') and a.kind == 'typeof' and b.kind == 'typeset':
             r = INTYPES(a.t)
+            return r if op == 'In' else Not(r)
+        if op in ('In', 'NotIn') and a.kind == 'cv' and b.kind == 'kwmap':
+            r = KWHAS(b.t, a.t)
             return r if op == 'In' else Not(r)
         if op in ('Eq', 'NotEq') and a.kind == 'sortedkeys' and b.kind == 'sortedkeys':
             ex.use('model:two sorted key lists are equal iff they are the same abstract list; dicts with equal sorted key lists have the same keys')
